@@ -148,6 +148,10 @@ pub fn run() {
         rep.sample(json!({"part":"LruTimeCache","history":s}));
     }
     let mut found: Vec<mc::Violation> = lru.violations.clone();
+    // service level: the configured values reach the handler
+    let (cases, svc) = crate::ssim::c15_service_level();
+    rep.set("service_level_configurations", cases);
+    found.extend(svc);
     // handler part
     let monitors = Monitors { c03: false, c04: false, c13: false, c15: true, c19: false, c20: false };
     let max_idles = if thorough { 3 } else { 2 };
